@@ -214,10 +214,8 @@ def check(tier: str) -> Result:
     if n_choice < 8:
         raise AnalysisError(f"only {n_choice} multi-sample jax.random.choice sites found (hand-confirmed minimum 8)")
     # ------------------------------------------------------------------ R3 (= C01.R6)
-    r1 = c01.check(tier)
-    for o in r1.obligations:
-        if o.rule == "C01.R6":
-            res.add("C10.R3", o.site, o.func, o.construct, o.ok, o.detail, nontrivial=o.nontrivial)
+    from .common import borrow as _borrow
+    _borrow(res, "c01", {"C01.R6": "C10.R3"})
     # ---- R6: reset-side spawn helpers receive the value reset stores in the state, not an earlier version of it
     # (e.g. the first fruit sampled against the board before the snake's head is placed): borrowed from C07.R3
     from .common import borrow
